@@ -6,13 +6,13 @@ from concurrent.futures import ThreadPoolExecutor
 from . import common, tlc, schema
 from .campaign import spec_digest, tset
 
-TIERS = {'quick': dict(shards=32, maxwords=3, nmut=1, wrap_every=4), 'thorough': dict(shards=48, maxwords=1000, nmut=3, wrap_every=1)}
+TIERS = {'quick': dict(shards=32, maxwords=40, nmut=1, wrap_every=4), 'thorough': dict(shards=48, maxwords=1000, nmut=3, wrap_every=1)}
 TV_CFG = "SPECIFICATION Spec\nINVARIANT Done\nCHECK_DEADLOCK FALSE\n"
 
 
 def gen_words(wd, J):
     open(os.path.join(wd, 'DG.tla'), 'w').write('---- MODULE DG ----\nEXTENDS DocumentGen\nDGTypes == CMTypes\n====\n')
-    open(os.path.join(wd, 'DG.cfg'), 'w').write('SPECIFICATION Spec\nCONSTANT Types <- DGTypes\nINVARIANT Emit\nCHECK_DEADLOCK FALSE\n')
+    open(os.path.join(wd, 'DG.cfg'), 'w').write('SPECIFICATION Spec\nCONSTANT Types <- DGTypes\nCONSTANT SmallAlphabet = 8\nCONSTANT SmallLen = 5\nINVARIANT Emit\nCHECK_DEADLOCK FALSE\n')
     g = tlc.run(os.path.join(wd, 'DG.tla'), os.path.join(wd, 'DG.cfg'), workers=1, timeout=1800)
     if not g['complete']:
         raise tlc.TLCError('DocumentGen failed:\n' + g['out'][-2000:])
@@ -56,7 +56,8 @@ def shard(wd, k, elems, cover, P, files):
             pid = clause.split('_')[0]
             exc = e['res']['exc'] or e['res2']['exc'] or e['res3']['exc']
             desc = e['variant'] or e['mut']
-            key = [pid, clause, e['op'], e['elem'], e['kind'], desc, e['target'], e['res']['ok'], exc, k % P['wrap_every'] == 0]
+            obs = hashlib.sha1(json.dumps(e['outp'], sort_keys=True).encode()).hexdigest()[:10] if e['op'] in ('trip', 'parse') else ''
+            key = [pid, clause, e['op'], e['elem'], e['kind'], desc, e['target'], e['res']['ok'], exc, k % P['wrap_every'] == 0, obs]
             cls = '%s:%s:%s' % (clause, e['op'], e['elem'])
             if 'text-exterior-blanks' in desc and clause in ('C08_trip', 'C09_trip'):
                 cls = 'parser-strips-character-data:' + clause
